@@ -30,8 +30,8 @@ CLAIMS = {
     text='Theorems C03_fasta_config_independence / C03_fastq_config_independence: two ARBITRARY configurations (capacity x read script incl. '
          'interrupts x policy) of the same input give, call by call, the same record contents, positions, error fields and end signal '
          '(corollary of the two refinement theorems; no reference run in the statement), and C03_fill_buf_chunking_invisible for the refill loop. '
-         'Record sets are covered by the differential run only (pairwise comparison of implementation traces across 5-7 configurations per input, '
-         'plus model/implementation comparison of the read-call and grow_to logs).',
+         'Record sets: the history theorems (C04) give the same concatenated records for every configuration; additionally pairwise comparison of implementation '
+         'traces across 5-7 configurations per input, plus model/implementation comparison of the read-call and grow_to logs.',
     technique='Coq proof (corollary of the refinement theorems for next(); fill_buf lemma) + pairwise differential run across configurations',
     ref='5 C03'),
  'C04': dict(
@@ -39,19 +39,52 @@ CLAIMS = {
          're-iteration, position queries and seeks to record positions on one reader refines the abstract cursor machine over fa_spec (Spec/Cursor.v): '
          'exactly once and in order (C04_exactly_once), sets non-empty, exact counts = min n remaining, a refilled set shows only the new batch, the other '
          'slot is unchanged, position after a set read = next unread record; for every input, capacity >= 3, chunking and never-refusing policy. '
-         'FASTQ: the same statement is covered by the correspondence run only so far (proof under construction). Tie: random histories <= 12 ops and five '
+         'FASTQ: C04q.v (7) proves the same against the stricter machine Spec/CursorQ.v (and its bridge to Cursor.v), incl. "an invalid record ahead: only preceding records, then its error". Tie: random histories <= 12 ops and five '
          'fixed switch patterns over all strings up to length 5-7, judged by the cursor-machine oracle; set re-iteration compared.',
-    technique='Coq refinement proof to an abstract cursor machine (induction over histories; FASTA) + differential run with cursor oracle (both formats)',
+    technique='Coq refinement proof to an abstract cursor machine (induction over histories; both formats) + differential run with cursor oracle',
     ref='5 C04'),
  'C05': dict(
     text='Theorems C05_fasta_position_after_next / C05_fastq_position_after_next: the position reported after the k-th call is the (line, byte) '
          'the whole-input specification assigns to the k-th item, for every configuration (corollary of the refinement theorems); C05fa.v (FASTA; 6): '
          'seeking to the position of any record from any reachable state - in-buffer shortcut or real seek - restores the stream from that record, the '
-         'offset invariant position.byte = start + window offset holds in every reachable state, position after a set read = next unread record. FASTQ seeks: '
-         'covered by the correspondence run so far (seeks to every saved position from random histories, targets inside and outside the buffer, judged by the '
-         'Spec cursor machine).',
-    technique='Coq proof (positions: corollary of refinement) + differential run with cursor-machine oracle for seeks',
+         'offset invariant position.byte = start + window offset holds in every reachable state, position after a set read = next unread record; C05q.v (FASTQ; 6): '
+         'the same, incl. seeking to the invalid record reproduces its error. Tie: seeks to every saved position from random histories, targets inside and '
+         'outside the buffer, judged by the Spec cursor machine.',
+    technique='Coq proof (positions: corollary of refinement; seeks: history refinement) + differential run with cursor-machine oracle',
     ref='5 C05'),
+ 'C06': dict(
+    text='Theorems: C06s.v (4) - an offset-sanity predicate holds for a new reader and is preserved by next / read_set / seek / set_policy for EVERY policy '
+         '(refusing, non-growing, scripted) and EVERY fault script, and no call from a sane state returns a panic outcome (both formats); C06f.v (17) - an I/O error '
+         'while refilling is final (reader Finished, later reads report the end), a failed source seek leaves the reader unchanged; the refinement theorems '
+         '(C01/C02/C04) give: every record returned in fault-free histories is a record of the input, in order, no fuel exhaustion. Termination with refusing policies '
+         'and faults and genuineness after faults are covered by the run (10 s watchdog, membership oracle); one KNOWN FINDING (in-buffer seek after a failed refill, '
+         'KNOWN_FINDINGS.txt). Tie: random inputs incl. binary x faults x refusing/scripted policies x mixed histories with post-error calls, debug build.',
+    technique='Coq invariant proof (sanity preserved for all policies/faults => no panic) + refinement corollaries + fault-injecting differential run with membership oracle',
+    ref='5 C06'),
+ 'C09': dict(
+    text='Theorems C09.v/C09n.v/C09p.v/C09q.v (57), for EVERY reader state, policy and fault script: the capacity changes only at a logged policy consultation with a '
+         'larger answer, the policy is asked with the current capacity, the answer is adopted exactly when the buffer is full (the only situation in which the readers '
+         'grow: every consultation happens at offset 0 with a full buffer), BufferLimit iff the policy refused in that call, set_policy changes only the policy, the '
+         'built-in policies (definitions regenerated from policy.rs) compute the documented sizes and equal the executable ones; C18_fa_steady_run / C18_fq_steady_run '
+         'add: input whose records all fit is read without any consultation. Tie: recording policies, grow_to log and offered read sizes compared with the model; '
+         'oracle "no request when every needed window fits"; policies on a grid around thresholds.',
+    technique='Coq structural proofs over all states + theorems over policy code generated from the source + differential run with recording policies',
+    ref='5 C09'),
+ 'C14': dict(
+    text='Theorems C14.v (12) and C14i.v (8), for EVERY reader state and fault script: a read or seek failure of kind k occurred during a call iff that call returns '
+         'Io(k) (never the end, never a format error, never a record), it is the only failure of the call; fill_buf returns FillErr k iff a read failed; interrupted '
+         'reads are invisible for fill_buf and for all six entry points (same outcome, corresponding successor state). Tie: a failure injected at every read-call index '
+         'and at seek calls, random interrupt patterns compared with the interrupt-free run, records before the failure judged by the cursor oracle.',
+    technique='Coq structural proofs over event traces (all states, all fault scripts) + fault-injecting differential run',
+    ref='5 C14'),
+ 'C18': dict(
+    text='PARTIAL (heap behaviour is measured, not proved). Theorems C18.v (17) over ghost high-water marks (Model/Alloc.v: a Vec that is only cleared and refilled '
+         'allocates only when its length exceeds the largest length it ever had): a call of next()/read_record_set() that logs no policy consultation and stays within the marks '
+         'raises no mark and keeps the capacity; returned records are views of the reader / set buffer (no copy); end-to-end: once the marks cover the remaining records '
+         'and they fit the capacity, no later call can allocate or consult the policy (FASTA and FASTQ runs). Tie: a counting #[global_allocator] measures every call; '
+         'wherever the extracted model predicts "no allocation" the measured count must be 0, and after the warm-up it must be 0 and grow_to must not be called.',
+    technique='Coq proof over an allocation-site ghost model + counting-allocator measurement compared with the model prediction',
+    ref='5 C18'),
  'C07': dict(
     text='Theorems of C07.v (12) over the transition-system model Par.v of read_parallel_init (threads, two bounded channels, job pool; one step per '
          'channel/closure/pool operation), for ALL thread counts >= 1, queue lengths >= 1, fill scripts, consumers and ALL schedules (induction over runs): content '
@@ -90,9 +123,11 @@ CLAIMS = {
     ref='5 C10'),
  'C11': dict(
     text='Theorems C11_fq_roundtrip(_parts), C11_fq_many (FASTQ writers round-trip through fq_spec_all with exact coordinates, for all admissible '
-         'fields). write_unchanged: covered by the correspondence run (concatenated outputs compared with the input bytes for LF/CRLF files with and '
-         'without final terminator at capacities 3..64; re-parse); theorems for it are under construction.',
-    technique='Coq proof (writers vs spec) + differential run with byte comparison and re-parse',
+         'fields); C11u.v (14): write_unchanged of every returned record = the input bytes of that record plus LF (line endings included), the concatenation over a '
+         'well-formed FASTQ input = the input with the final terminator added and the blank tail dropped, the FASTA counterpart re-parses to the same record and '
+         'reproduces the bytes up to the stated blank-line / final-LF normalisation - for every capacity, chunking and policy. Tie: concatenated outputs compared '
+         'with the input bytes for LF/CRLF files with and without final terminator at capacities 3..64; re-parse.',
+    technique='Coq proof (writers vs spec; write_unchanged via the refinement invariant) + differential run with byte comparison and re-parse',
     ref='5 C11'),
  'C12': dict(
     text='Theorems C12_fasta_parse_alike / C12_fasta_no_cr (any per-line LF/CRLF mixture, final terminator present or absent) and C12_fastq, '
